@@ -11,6 +11,10 @@
  *           b2     + a legitimate client has fetched block 0 (16 bytes) of /L: the server holds the body for the following blocks
  *           obs    + a legitimate client has registered an observation on /o (server holds a subscriber)
  *           blk    + a legitimate client has sent block 0 (M=1) of a Block1 PUT to /b (server holds a partial body)
+ *           qb1    the server has RFC 9177 enabled (COAP_BLOCK_TRY_Q_BLOCK) and a legitimate client has sent block 0 (M=1, NON, Size1 = 80)
+ *                  of a Q-Block1 PUT to /b: the server holds a partial Q-Block1 body (rec_blocks, payload sets, 4.08 machinery)
+ *           qb2    the same server; a legitimate client has asked for /L with Q-Block2 (NUM 0, M=1, 16 bytes): the server has sent the
+ *                  payload set and holds the body for "continue" / missing-block requests
  *           cli    the hostile datagrams go to a CLIENT session that has a Confirmable GET outstanding
  * src       same | other   datagrams claim the legitimate client's address (same session) or another port
  *
@@ -119,7 +123,7 @@ static void step(char *line) {
   n_handler = 0;
   srv = sim_new_context(); cli = sim_new_context();
   coap_register_response_handler(cli, on_rsp);
-  coap_context_set_block_mode(srv, COAP_BLOCK_USE_LIBCOAP | COAP_BLOCK_SINGLE_BODY);
+  coap_context_set_block_mode(srv, COAP_BLOCK_USE_LIBCOAP | COAP_BLOCK_SINGLE_BODY | (scen[0] == 'q' ? COAP_BLOCK_TRY_Q_BLOCK : 0));
   ep = sim_new_endpoint(srv, 0);
   coap_resource_t *r = coap_resource_init(coap_make_str_const("r"), 0);
   coap_register_request_handler(r, COAP_REQUEST_GET, hnd_get);
@@ -171,6 +175,24 @@ static void step(char *line) {
     coap_pdu_t *p = sim_make_pdu(cs, COAP_MESSAGE_CON, COAP_REQUEST_CODE_GET, 0x1000, tok, 2, NULL, 0);
     coap_add_option(p, COAP_OPTION_URI_PATH, 1, (const uint8_t *)"L");
     coap_add_option(p, COAP_OPTION_BLOCK2, 1, &blk);
+    unsigned from = sim_ntx;
+    coap_send(cs, p);
+    deliver_pending_from(from);
+  } else if (!strcmp(scen, "qb1")) {
+    uint8_t blk = 0x08 | 0x00, sz = 80;    /* NUM 0, M 1, SZX 0 */
+    coap_pdu_t *p = sim_make_pdu(cs, COAP_MESSAGE_NON, COAP_REQUEST_CODE_PUT, 0x1000, tok, 2, NULL, 0);
+    coap_add_option(p, COAP_OPTION_URI_PATH, 1, (const uint8_t *)"b");
+    coap_add_option(p, COAP_OPTION_Q_BLOCK1, 1, &blk);
+    coap_add_option(p, COAP_OPTION_SIZE1, 1, &sz);
+    coap_add_data(p, 16, (const uint8_t *)"0123456789abcdef");
+    unsigned from = sim_ntx;
+    coap_send(cs, p);
+    deliver_pending_from(from);
+  } else if (!strcmp(scen, "qb2")) {
+    uint8_t blk = 0x08 | 0x00;             /* NUM 0, M 1 (send the whole payload set), SZX 0 */
+    coap_pdu_t *p = sim_make_pdu(cs, COAP_MESSAGE_NON, COAP_REQUEST_CODE_GET, 0x1000, tok, 2, NULL, 0);
+    coap_add_option(p, COAP_OPTION_URI_PATH, 1, (const uint8_t *)"L");
+    coap_add_option(p, COAP_OPTION_Q_BLOCK2, 1, &blk);
     unsigned from = sim_ntx;
     coap_send(cs, p);
     deliver_pending_from(from);
